@@ -10,7 +10,7 @@ import c19_lines
 
 TIE = ["Nsq.Tie.ToolsToFile", "Nsq.Tie.ToolsToFileFn"]
 PROPS = ["Nsq.Props.C19", "Nsq.Props.C19Name", "Nsq.Props.C19Disc", "Nsq.Props.C19Ops",
-         "Nsq.Props.C19Lines", "Nsq.Props.C19Mono"]   # c19a (audit 7): line-level statement (C5/C4), step-wise no-overwrite + tool runs (C29)
+         "Nsq.Props.C19Lines", "Nsq.Props.C19Mono", "Nsq.Props.C19Tree"]   # c19a (audit 7): line-level statement (C5/C4), step-wise no-overwrite + tool runs (C29)
 CORPUS = os.path.join(fw.ROOT, "corpus", "C19")
 HARNESS = ["e8/tofile_test.go", "e8/tofile_names_test.go", "e8/tofile_disc_test.go", "e8/tofile_xdev_test.go", "e8/tofile_giveup_test.go", "e8/stub_nsqd.go",
            "e8/tofile_lines_test.go"]   # c19a: line-level replays + probes of fixes F46/F47
@@ -111,13 +111,19 @@ def run(ctx):
         "witnessed hypothesis boundary, not as a violation); the infix theorems (fin_implies_durable, ...) need no such hypothesis; "
         "none of the following is needed for this tree; "
         "fin_owns_line_partial (tree BEFORE fix F47, plain append mode): every pre-existing file and every file another process "
-        "drops is empty or ends in \"\\n\" (no writer died inside a record, no short write); unconditional with F47 "
-        "(fin_owns_line_fixed) and in O_EXCL modes (fin_owns_line_excl); refuted without (fin_owns_line_full_false, "
+        "drops is empty or ends in \"\\n\" (no writer died inside a record, no short write); without that directory hypothesis with F47 "
+        "(fin_owns_line_fixed) and in O_EXCL modes (fin_owns_line_excl) - both still carry the environment hypothesis EnvOk: "
+        "whatever another process appends to a file of the tool is a whole record written by a build with F46; refuted without (fin_owns_line_full_false, "
         "finding torn-tail-append, fixed, replayed on every run); a short write(2) is not a model primitive - its effect is a torn tail in the next run's directory",
         "tool_fin_implies_durable_partial: the consumer library does not give up (max_attempts = 0 or attempts <= "
         "max_attempts); with go-nsq's default max_attempts=5 the full tool-level statement is refuted (finding "
         "gives-up-after-max-attempts, fixed by F43 = /repo 924c537: main() sets cfg.MaxAttempts = 0, shipped_tool_safe; an operator's "
-        "--consumer-opt max_attempts,N re-enables the give-up); all router-level theorems are unconditional",
+        "--consumer-opt max_attempts,N re-enables the give-up); the give-up rule shouldFail / toolRun is a hand-written Lean "
+        "definition without a driver op: the real binary's give-up replay is compared with a Python mirror of it (giveup_leg); "
+        "the router-level theorems do not depend on max_attempts",
+        "no_overwrite_accepted / format_ok_cfg_wf are stated for cfgOf (hand-written: how an option set becomes a Cfg; shape "
+        "parameters false); for this tree: Props.C19Tree.no_overwrite_accepted_this_tree over treeCfg (cfgOf ...). "
+        "Props.C19Disc: the regexp answer and the NewFileLogger outcome are one time-invariant function of the topic per run",
     ]
     ctx.rule = ("one case = one generated script (configuration: gzip, rotate-size, rotate-interval, work-dir, "
                 "skip-empty-files, max-in-flight, sync-interval, datetime format, filename format with/without <REV>; "
